@@ -23,8 +23,7 @@ theorem plain_text_identity (custom : List ((VType × Bytes) × Nat)) (s : Bytes
 
 /-- a text statement evaluates to its token's literal -/
 theorem html_stmt_verbatim (fuel : Nat) (c : Ctx) (env : Env) (t : Token) :
-    evalStmt (fuel + 1) c env (.html t) = .ok ({ text := t.lit }, env) := by
-  simp [evalStmt]
+    evalStmt (fuel + 1) c env (.html t) = .ok ({ text := t.lit }, env) := rfl
 
 /-! non-vacuity -/
 
